@@ -248,6 +248,54 @@ impl Report {
 /// batch on a *fresh* OS thread (fresh hash keys, see `seed`), so the result of a case does not
 /// depend on which worker ran it or what ran before it on that worker... up to the position
 /// inside its batch, which is fixed.
+// ------------------------------------------------------------------ stall watchdog
+// A subject operation that never returns (an endless loop in the code under test) must end the
+// check with a verdict instead of stalling it: every completed unit of work ticks a counter; when
+// nothing completes for the limit, the watchdog reports and exits 1.
+
+static PROGRESS: std::sync::atomic::AtomicU64 = std::sync::atomic::AtomicU64::new(0);
+static CURRENT: Mutex<Vec<(std::thread::ThreadId, String)>> = Mutex::new(Vec::new());
+
+pub fn tick() {
+    PROGRESS.fetch_add(1, std::sync::atomic::Ordering::Relaxed);
+}
+
+/// What the calling worker is about to do (shown if it never finishes).
+pub fn now_doing(what: String) {
+    let id = std::thread::current().id();
+    let mut g = CURRENT.lock().unwrap_or_else(|e| e.into_inner());
+    if let Some(e) = g.iter_mut().find(|e| e.0 == id) {
+        e.1 = what;
+    } else {
+        g.push((id, what));
+    }
+}
+
+pub fn start_stall_watchdog(rep: &'static Report) {
+    let limit = std::time::Duration::from_secs(std::env::var("VERIF_STALL_SECS").ok().and_then(|s| s.parse().ok()).unwrap_or(240));
+    std::thread::spawn(move || {
+        let mut last = PROGRESS.load(std::sync::atomic::Ordering::Relaxed);
+        let mut since = std::time::Instant::now();
+        loop {
+            std::thread::sleep(std::time::Duration::from_secs(2));
+            let now = PROGRESS.load(std::sync::atomic::Ordering::Relaxed);
+            if now != last {
+                last = now;
+                since = std::time::Instant::now();
+            } else if since.elapsed() > limit {
+                let doing: Vec<String> = CURRENT.lock().unwrap_or_else(|e| e.into_inner()).iter().map(|e| e.1.clone()).collect();
+                rep.violation(
+                    "an operation on the subject did not return (no unit of work completed within the stall limit)",
+                    &format!("nothing completed for {} s; workers were busy with: {:?}", limit.as_secs(), doing),
+                    || json!({"stalled": true, "workers": doing}),
+                );
+                rep.set("exhaustive", false);
+                std::process::exit(rep.finish().max(1));
+            }
+        }
+    });
+}
+
 pub fn par_batches<T: Sync, F: Fn(usize, &T) + Sync>(cases: &[T], batch: usize, f: F) {
     use std::sync::atomic::{AtomicUsize, Ordering};
     let next = AtomicUsize::new(0);
@@ -264,7 +312,9 @@ pub fn par_batches<T: Sync, F: Fn(usize, &T) + Sync>(cases: &[T], batch: usize, 
                 let hi = (lo + batch).min(cases.len());
                 crate::seed::on_fresh_thread(|| {
                     for i in lo..hi {
+                        now_doing(format!("case #{} of {} ({})", i, cases.len(), std::any::type_name::<T>()));
                         f(i, &cases[i]);
+                        tick();
                     }
                 });
             });
